@@ -435,8 +435,17 @@ impl C05 {
     for ph in 0..n_phases {
       let burst = if burst_at == Some(ph) {
         let b = crate::gen::legal_positions(&text);
+        // a quarter of the bursts also use keys far beyond the end of the text
+        // (all of them clamp to the end; their order among themselves still
+        // follows start, then end)
+        let far_keys = rng.chance(250);
         let mut keys: Vec<(u32, u32)> = (0..1 + rng.usize_below(8))
           .map(|_| {
+            if far_keys && rng.chance(600) {
+              let a = *rng.pick(&[300u32, 511, 512, 1000, 4095, 65_535, 70_000, 4_000_000_000]) + rng.below(40) as u32;
+              let z = if rng.chance(300) { a } else { a + *rng.pick(&[1u32, 10, 1000, 100_000]) + rng.below(50) as u32 };
+              return (a, z);
+            }
             let a = *rng.pick(&b);
             let z = if rng.chance(700) { a } else { *rng.pick(&b) };
             (a.min(z), a.max(z))
@@ -721,7 +730,7 @@ impl Property for C05 {
     (serde_json::to_value(&cur).unwrap(), from)
   }
   fn rule(&self) -> String {
-    "case = (inner tree, 1-4 phases, knobs) from splitmix(VERIF_SEED, run index). A phase = optionally continuing on a clone of the value, then 0-4 mutating calls by the owner (insert / replace / *_with_enforce; positions from the char boundaries of the inner text plus positions beyond the end; deliberately colliding (start,end) keys, nesting, overlap, all enforce values; in 12% of the cases 21-48 calls on 1-3 colliding keys; in 4% of the cases one programmatic burst of 31 .. 65 540 calls, the count next to a power of two with extra weight on 2^8 and 2^16, in the first phase or after an observation phase) followed by an observation phase in which 1-3 simulated threads share &ReplaceSource and call source, rope, buffer, size, to_writer(fault plan), map, hash, stream (also cancelled), clone-then-observe under a seeded schedule. Every text-bearing answer must equal the 12-line splice model applied to all calls so far. distinct_nontrivial = distinct histories with >= 2 replacements and a mutation after an observation phase.".into()
+    "case = (inner tree, 1-4 phases, knobs) from splitmix(VERIF_SEED, run index). A phase = optionally continuing on a clone of the value, then 0-4 mutating calls by the owner (insert / replace / *_with_enforce; positions from the char boundaries of the inner text plus positions beyond the end; deliberately colliding (start,end) keys, nesting, overlap, all enforce values; in 12% of the cases 21-48 calls on 1-3 colliding keys; in 4% of the cases one programmatic burst of 31 .. 65 540 calls, the count next to a power of two with extra weight on 2^8 and 2^16, in the first phase or after an observation phase; a quarter of the bursts use keys far beyond the end of the text) followed by an observation phase in which 1-3 simulated threads share &ReplaceSource and call source, rope, buffer, size, to_writer(fault plan), map, hash, stream (also cancelled), clone-then-observe under a seeded schedule. Every text-bearing answer must equal the 12-line splice model applied to all calls so far. distinct_nontrivial = distinct histories with >= 2 replacements and a mutation after an observation phase.".into()
   }
   fn assumptions(&self) -> Vec<String> {
     vec![
